@@ -338,7 +338,7 @@ impl<'tx> TxInner<'tx> {
         }
         if let TxLock::Rw(file) = &mut self.lock {
             // write meta page to file
-            {
+            let written: Result<()> = (|| {
                 let mut buf = vec![0; self.db.inner.pagesize as usize];
 
                 #[allow(clippy::cast_ptr_alignment)]
@@ -360,17 +360,22 @@ impl<'tx> TxInner<'tx> {
                 file.seek(SeekFrom::Start(self.db.inner.pagesize * meta_page_id))?;
                 file.write_all(buf.as_slice())?;
                 vpoint!("commit:meta_written", slot = meta_page_id, tx_id = self.meta.tx_id);
+
+                file.flush()?;
+                file.sync_all()?;
+                vpoint!("commit:synced", tx_id = self.meta.tx_id);
+                Ok(())
+            })();
+
+            // Later transactions read the meta page back from the file. If the write or the
+            // sync failed after (part of) the new meta page got there, they will still see it,
+            // so the shared freelist has to follow whichever meta page is current now.
+            if written.is_ok() || self.db.inner.meta()?.tx_id == self.meta.tx_id {
+                let mut lock = self.db.inner.freelist.lock()?;
+                *lock = freelist.inner.clone();
+                vpoint!("commit:published", tx_id = self.meta.tx_id);
             }
-
-            file.flush()?;
-            file.sync_all()?;
-            vpoint!("commit:synced", tx_id = self.meta.tx_id);
-
-            let mut lock = self.db.inner.freelist.lock()?;
-            *lock = freelist.inner.clone();
-            vpoint!("commit:published", tx_id = self.meta.tx_id);
-            #[cfg(jammdb_verif)]
-            drop(lock);
+            written?;
             vpoint!("commit:done", tx_id = self.meta.tx_id);
             Ok(())
         } else {
